@@ -485,7 +485,7 @@ func (r *rtRun) peerActions() {
 			}
 			e.Fault("routing-busy")
 			r.busy = append(r.busy, rtBusy{Wait: wait, Control: ctl, SentAt: e.Stamp()})
-			r.peerSend(mkRoutingBusy(0, wait, ctl))
+			r.peerSend(mkRoutingBusy(devState(e), wait, ctl))
 		case "lost":
 			// keep lost indications isolated: the previous resend has certainly finished
 			gap := time.Duration(70*(c.Senders+1))*(c.P+time.Millisecond+c.SlowMax+c.StarveMax) + 400*time.Millisecond
@@ -503,7 +503,7 @@ func (r *rtRun) peerActions() {
 			}
 			e.Fault("routing-lost")
 			r.lost = append(r.lost, rtLost{Count: uint16(k), SentAt: e.Stamp()})
-			r.peerSend(mkRoutingLost(0, uint16(k)))
+			r.peerSend(mkRoutingLost(devState(e), uint16(k)))
 			lastLost = s.Now()
 		}
 	}
@@ -1001,4 +1001,10 @@ func brief(a []int) string {
 		return fmt.Sprint(a)
 	}
 	return fmt.Sprintf("[%d %d %d %d ... %d %d %d] (%d ids)", a[0], a[1], a[2], a[3], a[len(a)-3], a[len(a)-2], a[len(a)-1], len(a))
+}
+
+// devState is the device-state octet of a routing indication: a bit set (KNX fault, IP fault, reserved
+// bits) that says something about the sender and nothing about what the receiver has to do.
+func devState(e *Env) uint8 {
+	return []uint8{0, 0, 0, 1, 2, 3, 0x80, 0xff}[e.Choose("wl.devstate", 8)]
 }
